@@ -468,7 +468,8 @@ class RuntimeContext:
     ):
         # err = Error(e)
         self.errors.append(e)
-        if force_raise or not self.options.collect_errors:
+        if force_raise or self.force_error or not self.options.collect_errors:
+            # force_error: a context made for an assignment, there is nobody to raise the collected errors later
             raise e
 
         if (
